@@ -26,32 +26,40 @@ token and answers `some …` iff
 3. the last `scanToken` of the call then skips white space and comments by whole turns of the
    `SkipWhiteSpace` loop, none of which touches the end of `a`, and finds the end in the look-ahead
    at the head of that loop **at the start of a line** (`col = 0`, no pending CR), with nothing
-   buffered and no eexec section open (`wsEnd`, `atEnd`).  The start of a line is needed because
+   buffered, no eexec section open and the eexec cipher state untouched (`wsEnd`, `atEnd`).  The
+   start of a line is needed because
    DSC comments are recognised in column 0 only (`"1 "` + `"%%Title: x\n"`); a DSC comment as
    the very last line of `a` is *not* accepted, because its reader looks ahead for a `%%+`
-   continuation line (`"%%Title: x\n"` + `"%%+ y\n"`);
-4. two tests that always succeed inside `Execute` and are only there to keep the proof short:
-   `CheckStart` is cleared and a scanner is installed (`endOK`).
+   continuation line (`"%%Title: x\n"` + `"%%+ y\n"`).
 
 ## The statement (`execute_split`)
 
 If `(cleanRun f m s a).isSome` then the first call returns `ok`, and for every second part `b`
-and all fuels for which neither run is cut short by the model (`Good`: not `Res.fuel`, not the
-scanner model's `"scanner-fuel"` failure), the single call over `a ++ b` from `s` and the call
-over `b` from the state left by the first call
+and all fuels for which neither run is cut short by the model (`Good r := r ≠ Res.fuel`; the
+scanner model's own fuel never runs out here, `ws_noSF`), the single call over `a ++ b` from `s`
+and the call over `b` from the state left by the first call
 
 * return the same result (also when that is an error, `stop`, `invalidexit`, the budget error …),
 * leave the same interpreter state: `vm` (operand stack, dictionary stack, heap, CMap scratch),
-  `numOps`, `checkStart`, `execDepth`, `errors`, `procStart`, `scannerDepth`, `hiDepth`, `hiErrors`
-  are **equal**; the scanner agrees in `src`, `peek`, `eexec`, `r`, `col`, `crSeen`, `err`, `fault`,
+  `numOps`, `checkStart`, `execDepth`, `errors`, `procStart`, `scannerDepth`, `dsc` (Go: `intp.DSC`),
+  `hiDepth`, `hiErrors` are **equal, whatever the result**; the scanner agrees in `src`, `peek`, `eexec`, `r`, `col`, `crSeen`, `err`, `fault`,
   `regurgitate` and differs exactly by the line counter (`+ line` of the first call) and by the
   structured comments of the first part in front of its `dsc`;
-* `dsc` (Go: `intp.DSC`): equal when the result is `ok`.  **When the second part fails they
-  differ** (finding, below): the single call has dropped all structured comments of this input
-  (`dsc = s.dsc`) while the two calls have kept those of the first part.
 
+(Before the fix of `Execute` that this property led to, `dsc` was equal only for result `ok`: a
+failing call dropped the structured comments of its whole input, so the single call lost those
+of the first part while the two calls had kept them.  See "former finding" below.)
+
+`execute_split_good`: if the single call is not cut short by the model, neither is the second call.
 `execute_split_many` is the same for any number of parts (induction over the list of parts).
 `frame_property` is the underlying lemma for all thirteen functions of the interpreter model.
+
+Not covered (the statement may still hold, but `cleanRun` rejects the first part): a first part
+whose last line is a DSC comment (`"%%EndProlog\n"` + …), because of the `%%+` look-ahead — equal
+outcomes there would need `b` not to start with `%%+` and a proof that the scanner does not depend
+on how the unread bytes are divided between its look-ahead buffer and its source; a first part
+that ends with CR (the LF of a CR LF pair in the next call); first parts ending in white space
+other than a line end (fine unless the second part starts with `%%`).
 -/
 namespace PsVerif.Props.C12Split
 open PsVerif.Model PsVerif.Proofs.SplitExec
@@ -66,9 +74,7 @@ theorem execute_split {f m : Nat} {s : State} {a : List UInt8} (hc : (cleanRun f
       execute F1 m s (a ++ b) none =
         ({ (execute F2 m (execute f m s a none).1 b none).1 with
             scanner := ext [] (execute f m s a none).1.scanner.line (execute f m s a none).1.scanner.dsc
-              (execute F2 m (execute f m s a none).1 b none).1.scanner,
-            dsc := if (execute F2 m (execute f m s a none).1 b none).2 = .ok
-              then (execute F2 m (execute f m s a none).1 b none).1.dsc else s.dsc },
+              (execute F2 m (execute f m s a none).1 b none).1.scanner },
          (execute F2 m (execute f m s a none).1 b none).2) :=
   split_two hc
 
@@ -82,8 +88,7 @@ theorem execute_split_fields {f m : Nat} {s : State} {a : List UInt8} (hc : (cle
     P1.2 = P2.2 ∧ P1.1.vm = P2.1.vm ∧ P1.1.numOps = P2.1.numOps ∧ P1.1.checkStart = P2.1.checkStart ∧
     P1.1.execDepth = P2.1.execDepth ∧ P1.1.errors = P2.1.errors ∧ P1.1.procStart = P2.1.procStart ∧
     P1.1.scannerDepth = P2.1.scannerDepth ∧ P1.1.hiDepth = P2.1.hiDepth ∧ P1.1.hiErrors = P2.1.hiErrors ∧
-    (P2.2 = .ok → P1.1.dsc = P2.1.dsc) ∧
-    (P2.2 ≠ .ok → P1.1.dsc = s.dsc ∧ P2.1.dsc = s.dsc ++ (execute f m s a none).1.scanner.dsc) ∧
+    P1.1.dsc = P2.1.dsc ∧
     P1.1.scanner.src = P2.1.scanner.src ++ [] ∧ P1.1.scanner.peek = P2.1.scanner.peek ∧
     P1.1.scanner.eexec = P2.1.scanner.eexec ∧ P1.1.scanner.col = P2.1.scanner.col ∧
     P1.1.scanner.crSeen = P2.1.scanner.crSeen ∧ P1.1.scanner.err = P2.1.scanner.err ∧
@@ -93,33 +98,34 @@ theorem execute_split_fields {f m : Nat} {s : State} {a : List UInt8} (hc : (cle
   obtain ⟨_, hd, h⟩ := split_two hc
   have e := h b F1 F2 g1 g2
   have e' : P1 = _ := e
-  refine ⟨?_, ?_, ?_, ?_, ?_, ?_, ?_, ?_, ?_, ?_, ?_, ?_, ?_, ?_, ?_, ?_, ?_, ?_, ?_, ?_⟩
+  refine ⟨?_, ?_, ?_, ?_, ?_, ?_, ?_, ?_, ?_, ?_, ?_, ?_, ?_, ?_, ?_, ?_, ?_, ?_, ?_⟩
   all_goals first
     | (rw [e']; done)
     | (rw [e']; rfl)
-    | skip
-  · intro hok
-    rw [e']
-    show (if P2.2 = .ok then P2.1.dsc else s.dsc) = P2.1.dsc
-    rw [if_pos hok]
-  · intro hok
-    refine ⟨?_, ?_⟩
-    · rw [e']
-      show (if P2.2 = .ok then P2.1.dsc else s.dsc) = s.dsc
-      rw [if_neg hok]
-    · rw [execute_dsc_err F2 m _ b hok, hd]
 
-/-- **C12 (any number of calls).**  `ChainOK f m s parts b`: every part is accepted by `cleanRun`
-when it is run after the parts before it, and the run over the rest of the input from there is
-not cut short by the model for some fuel.  `endState`: the state after feeding the parts one by
-one.  `SplitRel d0 P1 P2`: the relation of `execute_split` (same result; same state up to the
-scanner's line counter and list of structured comments; `dsc = d0` after an error). -/
+/-- if the single call is not cut short by the model then neither is the second call -/
+theorem execute_split_good {f m : Nat} {s : State} {a : List UInt8} (hc : (cleanRun f m s a).isSome = true)
+    (b : List UInt8) (F1 : Nat) (g1 : Good (execute F1 m s (a ++ b) none).2) :
+    Good (execute (F1 + f + 1 + 1) m (execute f m s a none).1 b none).2 :=
+  split_two_good hc b F1 g1
+
+/-- **C12 (any number of calls).**  `ChainOK f m s parts`: every part is accepted by `cleanRun`
+when it is run after the parts before it.  `endState`: the state after feeding the parts one by
+one.  `SplitRel P1 P2 := ∃ l pre, P1 = ({ P2.1 with scanner := ext [] l pre P2.1.scanner }, P2.2)`:
+the relation of `execute_split` (same result; same state up to the scanner's line counter and
+list of structured comments). -/
 theorem execute_split_many (f m : Nat) (parts : List (List UInt8)) (s : State) (b : List UInt8)
-    (h : ChainOK f m s parts b) (F1 F2 : Nat)
+    (h : ChainOK f m s parts) (F1 F2 : Nat)
     (g1 : Good (execute F1 m s (parts.flatten ++ b) none).2)
     (g2 : Good (execute F2 m (endState f m s parts) b none).2) :
-    SplitRel s.dsc (execute F1 m s (parts.flatten ++ b) none) (execute F2 m (endState f m s parts) b none) :=
+    SplitRel (execute F1 m s (parts.flatten ++ b) none) (execute F2 m (endState f m s parts) b none) :=
   split_many f m parts s b h F1 F2 g1 g2
+
+/-- … and the last call is not cut short by the model when the single call is not -/
+theorem execute_split_many_good (f m : Nat) (parts : List (List UInt8)) (s : State) (b : List UInt8)
+    (h : ChainOK f m s parts) (F1 : Nat) (g1 : Good (execute F1 m s (parts.flatten ++ b) none).2) :
+    ∃ F2, Good (execute F2 m (endState f m s parts) b none).2 :=
+  split_many_good f m parts s b h F1 g1
 
 /-- **Frame property** of the whole interpreter model: a call of any of the thirteen functions
 that ends without its scanner having looked beyond the end of its source (`Quiet`), and not
@@ -147,10 +153,7 @@ example : execute 50 0 newInterpreter (exA ++ exB) none =
     ({ (execute 50 0 (execute 50 0 newInterpreter exA none).1 exB none).1 with
         scanner := ext [] (execute 50 0 newInterpreter exA none).1.scanner.line
           (execute 50 0 newInterpreter exA none).1.scanner.dsc
-          (execute 50 0 (execute 50 0 newInterpreter exA none).1 exB none).1.scanner,
-        dsc := if (execute 50 0 (execute 50 0 newInterpreter exA none).1 exB none).2 = .ok
-          then (execute 50 0 (execute 50 0 newInterpreter exA none).1 exB none).1.dsc
-          else newInterpreter.dsc },
+          (execute 50 0 (execute 50 0 newInterpreter exA none).1 exB none).1.scanner },
      (execute 50 0 (execute 50 0 newInterpreter exA none).1 exB none).2) :=
   (execute_split exA_clean).2.2 exB 50 50 (by decide +kernel) (by decide +kernel)
 
@@ -162,28 +165,33 @@ example : (execute 50 0 newInterpreter (exA ++ exB) none).2 = .ok ∧
 /-- three calls: `"/f {\n"`, `" 1 2\n"`, `"add } def f\n"` -/
 def exParts : List (List UInt8) := [[47, 102, 32, 123, 10], [32, 49, 32, 50, 10]]
 
-theorem exParts_ok : ChainOK 50 0 newInterpreter exParts exB := by
-  refine ⟨by decide +kernel, ⟨50, by decide +kernel⟩, by decide +kernel, ⟨50, by decide +kernel⟩, trivial⟩
+theorem exParts_ok : ChainOK 50 0 newInterpreter exParts := by
+  refine ⟨by decide +kernel, by decide +kernel, trivial⟩
 
-example : SplitRel newInterpreter.dsc (execute 50 0 newInterpreter (exParts.flatten ++ exB) none)
+example : SplitRel (execute 50 0 newInterpreter (exParts.flatten ++ exB) none)
     (execute 50 0 (endState 50 0 newInterpreter exParts) exB none) :=
   execute_split_many 50 0 exParts newInterpreter exB exParts_ok 50 50 (by decide +kernel) (by decide +kernel)
 
-/-! ## Why the side conditions are needed (all confirmed on the Go code as well) -/
+/-! ## The former finding, and why the side conditions are needed (all confirmed on the Go code as well) -/
 
-/-- **Finding.**  Split at a clean line boundary, the second part fails (`foo` is undefined):
-the single call returns with `DSC` empty, the two calls keep the comment of the first part.
-`a = "%%Title: x\n1 2 add\n"`, `b = "foo\n"`.  (Go: `Execute` appends `s.DSC` to `intp.DSC` only
-when it returns `nil`.) -/
+/-- **Former finding (fixed).**  Split at a clean line boundary, the second part fails (`foo` is
+undefined): `a = "%%Title: x\n1 2 add\n"`, `b = "foo\n"`.  Go's `Execute` used to append `s.DSC`
+to `intp.DSC` only when it returned `nil`, so the single call ended with `DSC` empty while the two
+calls kept `{Title x}` of the first part.  `Execute` (and the model) now append the comments seen
+so far whether or not the call fails; both runs end with `DSC = [{Title x}]`, as
+`execute_split` says. -/
 def dscA : List UInt8 := [37, 37, 84, 105, 116, 108, 101, 58, 32, 120, 10, 49, 32, 50, 32, 97, 100, 100, 10]
 def dscB : List UInt8 := [102, 111, 111, 10]
 
 example : (cleanRun 50 0 newInterpreter dscA).isSome = true ∧
     (execute 50 0 newInterpreter (dscA ++ dscB) none).2 = .err (.ps "undefined") ∧
     (execute 50 0 (execute 50 0 newInterpreter dscA none).1 dscB none).2 = .err (.ps "undefined") ∧
-    (execute 50 0 newInterpreter (dscA ++ dscB) none).1.dsc = [] ∧
+    (execute 50 0 newInterpreter (dscA ++ dscB) none).1.dsc = [("Title", "x")] ∧
     (execute 50 0 (execute 50 0 newInterpreter dscA none).1 dscB none).1.dsc = [("Title", "x")] := by
   decide +kernel
+
+#eval ((execute 50 0 newInterpreter (dscA ++ dscB) none).1.dsc,
+  (execute 50 0 (execute 50 0 newInterpreter dscA none).1 dscB none).1.dsc)
 
 /-- a DSC comment and its `%%+` continuation line in different calls: `"%%Title: x\n"` + `"%%+ y\n"`
 (not accepted by `cleanRun`: the reader of the comment looks ahead beyond the end of the first part) -/
@@ -231,7 +239,9 @@ end PsVerif.Props.C12Split
 
 #print axioms PsVerif.Props.C12Split.execute_split
 #print axioms PsVerif.Props.C12Split.execute_split_fields
+#print axioms PsVerif.Props.C12Split.execute_split_good
 #print axioms PsVerif.Props.C12Split.execute_split_many
+#print axioms PsVerif.Props.C12Split.execute_split_many_good
 #print axioms PsVerif.Props.C12Split.frame_property
 #print axioms PsVerif.Props.C12Split.exA_clean
 #print axioms PsVerif.Props.C12Split.exParts_ok
